@@ -115,6 +115,12 @@ def execute(cases, tier):
                 d["known"] = kid
             disagreements.append(d)
     cli = cli_runs(cases, outs, 40 if tier == "quick" else 600)
+    import updfam
+    for clause, what, detail in updfam.cli_tree_checks("format"):
+        cli["bad"].append({"case": {"family": "cli-tree", "invocation": "--format t/main.slt (root includes a same-stem sibling, one file twice, a nested directory)"},
+                           "impl": detail, "model": "every file keeps its meaning; a second run changes no byte; no *.temp left",
+                           "spec": "contradicts L1 (C05_format_%s through --format on an include tree): %s" % (clause, what), "broken": "corr_C05_cli_tree"})
+    cli["runs"] += 2
     disagreements += cli["bad"]
     stats = {
         "evaluations": len(cases), "model_evaluations": len(mcases), "distinct_nontrivial": len(keys), "rule": RULE,
